@@ -271,6 +271,31 @@ func vacuityCheck(vcs []vcAndKey, timeout int) []string {
 	sem := make(chan struct{}, 16)
 	for _, v := range vcs {
 		seen := map[string]bool{}
+		for _, cp := range v.vc.Covers {
+			id := fmt.Sprintf("%s|%d", cp.Guard, cp.NAssumes)
+			if seen[id] {
+				continue
+			}
+			seen[id] = true
+			wg.Add(1)
+			go func(v vcAndKey, cp CoverPoint) {
+				defer wg.Done()
+				sem <- struct{}{}
+				defer func() { <-sem }()
+				// is the call itself reachable? (dead code under assumed library contracts is not a vacuity problem)
+				q := v.vc.CoverQuery(cp.Guard, cp.NAssumes)
+				r := runSolver(solvers[0], dropQuantified(q), timeout)
+				if r.verdict == "unsat" {
+					pre := v.vc.CoverQuery(cp.Guard, 0)
+					if r0 := runSolver(solvers[0], dropQuantified(pre), timeout); r0.verdict == "unsat" {
+						return
+					}
+					mu.Lock()
+					out = append(out, fmt.Sprintf("%s: state %s is unreachable under the assumed contracts (contradictory assumptions)", v.key, cp.What))
+					mu.Unlock()
+				}
+			}(v, cp)
+		}
 		for _, o := range v.vc.Obls {
 			if o.Kind == "nopanic" {
 				continue // safety obligations inside branches that the assumed library contracts make dead are harmless
